@@ -10,6 +10,10 @@
 //   x start configuration (interior lattice point x 26 directions | near-boundary tangent
 //     family | start ON a boundary reached by linear move + cross, optional set_dir)
 //   x requested step x subdivision k in {1,2,5}
+// charge = e-/e+ on the whole lattice; PLUS a sub-lattice (default options, radius indices 3..5,
+// every geometry, every non-ZHelix (stepper, field) with B != 0; quick: checkerboard half) for an
+// alpha (q = +2, m = 3727.379 MeV: |q| != 1, m != m_e) and a neutral massless particle (q = 0 in
+// B != 0: straight line); block ids q=a / q=0.
 // Fields: uniform along x / z / oblique (also with negative components) at 1 mT / 1 T / 100 T,
 // B = 0, UniformZField, RZMapField with uniform content, with smooth non-uniform content, and a
 // map that is SMALLER than the world (uniform inside, documented zero field outside).
@@ -45,7 +49,10 @@
 //              what all other calls use so that stepper applications can be counted
 //   rzmap      RZMapField::operator() at geometry points, their mirror images, the axis, a lattice
 //              over and beyond each map, map edges and grid lines +-1 ulp vs a long-double
-//              re-interpolation of the input tables (case ids rzmap=rzu|rzs|rzi)
+//              re-interpolation of the input tables (case ids rzmap=rzu|rzs|rzi|rzh).  rzh is a
+//              HOLLOW map (2.5 <= r <= 10, 3 <= z <= 17) that is only value-checked: inner edge
+//              +-1 ulp, the hole, z < min_z > 0.  params.host_ref().options must equal
+//              RZMapFieldInput::driver_options (non-default for rzi = tight and for rzh)
 //   nolimit    FieldPropagator::operator()() from interior starts (case ids nolimit:...)
 //   zhx        ZHelixStepper single steps inside / outside the configuration of its unit test
 //
@@ -56,7 +63,7 @@
 // signature:  driver:<mechanism>-step-and-state-disagree[<oracle signature>].  Everything else
 // in those option sets is reported under its real signature.
 //
-// Case ids:  block id  "g=<geom>;sf=<stepper:field>;q=<+|->;r=<ratio idx>;o=<options>"
+// Case ids:  block id  "g=<geom>;sf=<stepper:field>;q=<+|-|a|0>;r=<ratio idx>;o=<options>"
 //            full id   block id + ";c=<start cfg>;s=<step idx>;k=<k>"
 #include <algorithm>
 #include <cmath>
@@ -816,22 +823,27 @@ static std::vector<StartCfg> make_starts(Geo const& G, bool thorough)
 // PARTICLES
 //---------------------------------------------------------------------------//
 static constexpr double electron_mass = 0.5109989461;  // MeV
+static constexpr double alpha_mass = 3727.379;  // MeV
 
 struct Particles
 {
     std::shared_ptr<ParticleParams> params;
     CollectionStateStore<ParticleStateData, MemSpace::host> state;
-    ParticleId eminus, eplus;
+    ParticleId eminus, eplus, alpha, neutral;
     Particles()
     {
         using namespace units;
         ParticleParams::Input defs
             = {{"electron", pdg::electron(), MevMass{electron_mass}, ElementaryCharge{-1}, 0.0},
-               {"positron", pdg::positron(), MevMass{electron_mass}, ElementaryCharge{1}, 0.0}};
+               {"positron", pdg::positron(), MevMass{electron_mass}, ElementaryCharge{1}, 0.0},
+               {"alpha", pdg::alpha(), MevMass{alpha_mass}, ElementaryCharge{2}, 0.0},
+               {"gamma", pdg::gamma(), MevMass{0}, ElementaryCharge{0}, 0.0}};
         params = std::make_shared<ParticleParams>(std::move(defs));
         state = CollectionStateStore<ParticleStateData, MemSpace::host>(params->host_ref(), 1);
         eminus = params->find(pdg::electron());
         eplus = params->find(pdg::positron());
+        alpha = params->find(pdg::alpha());
+        neutral = params->find(pdg::gamma());
     }
     ParticleTrackView view() { return ParticleTrackView{params->host_ref(), state.ref(), TrackSlotId{0}}; }
 };
@@ -1063,7 +1075,9 @@ static Propagation propagate_once(SF const& sf,
 
 // kind 0: uniform content, map contains the world | 1: smooth non-uniform content, contains the
 // world | 2: uniform content on a map that lies INSIDE the world (r <= 10, -12 <= z <= 14;
-// asymmetric and max_r != max_z on purpose)
+// asymmetric and max_r != max_z on purpose; carries non-default driver_options = the `tight` set)
+// | 3: HOLLOW map, value oracle only (never propagated through): 2.5 <= r <= 10, 3 <= z <= 17 (z
+// range does not straddle 0), 7 x 5 knots, smooth content, its own driver_options
 static RZMapFieldInput make_rz_input(double bz, int kind)
 {
     RZMapFieldInput inp;
@@ -1080,14 +1094,31 @@ static RZMapFieldInput make_rz_input(double bz, int kind)
         inp.min_z = -12;
         inp.max_z = 14;
         inp.max_r = 10;
+        inp.driver_options.minimum_step = 1e-7;
+        inp.driver_options.delta_chord = 1e-3;
+        inp.driver_options.delta_intersection = 1e-6;
+        inp.driver_options.epsilon_rel_max = 1e-5;
+        inp.driver_options.epsilon_step = 1e-6;
+    }
+    if (kind == 3)
+    {
+        inp.num_grid_z = 7;
+        inp.num_grid_r = 5;
+        inp.min_z = 3;
+        inp.max_z = 17;
+        inp.min_r = 2.5;
+        inp.max_r = 10;
+        inp.driver_options.delta_chord = 0.02;
+        inp.driver_options.max_nsteps = 7;
+        inp.driver_options.max_substeps = 3;
     }
     for (unsigned iz = 0; iz < inp.num_grid_z; ++iz)
         for (unsigned ir = 0; ir < inp.num_grid_r; ++ir)
         {
             double z = inp.min_z + (inp.max_z - inp.min_z) * iz / (inp.num_grid_z - 1);
-            double r = inp.max_r * ir / (inp.num_grid_r - 1);
+            double r = inp.min_r + (inp.max_r - inp.min_r) * ir / (inp.num_grid_r - 1);
             double fz = bz, fr = 0;
-            if (kind == 1)
+            if (kind == 1 || kind == 3)
             {
                 fz = bz * (1 + 0.3 * std::cos(z / 25) - 0.2 * (r / 60) * (r / 60));
                 fr = bz * 0.25 * (r / 60) * std::sin(z / 25);
@@ -1150,7 +1181,8 @@ struct RzOracle
         bool const in_z = x[2] >= in.min_z && x[2] <= in.max_z;
         // r is compared after rounding: one ulp either side of max_r both answers are admissible
         bool const in_r = rd >= in.min_r && rd <= in.max_r;
-        bool const r_edge = fabsl(r - in.max_r) <= 4 * 2.3e-16L * in.max_r;
+        bool const r_edge = fabsl(r - in.max_r) <= 4 * 2.3e-16L * in.max_r
+                            || (in.min_r > 0 && fabsl(r - in.min_r) <= 4 * 2.3e-16L * in.min_r);
         auto is_zero = [&] { return got[0] == 0 && got[1] == 0 && got[2] == 0; };
         if (!in_z || (!in_r && !r_edge))
             return is_zero();
@@ -1198,6 +1230,19 @@ static void rzmap_value_cases(vf::Run& R, char const* name, RZMapFieldInput cons
     R.begin_case(cid, 30);
     RzOracle O{inp};
     RZMapField field(params.host_ref());
+    // the driver options of an RZ-map run are taken from the params in production
+    // (RZMapFieldPropagatorFactory): they must be the ones of the input (library's operator==)
+    R.count("evaluations");
+    if (!(params.host_ref().options == inp.driver_options)
+        || params.host_ref().options.delta_chord != inp.driver_options.delta_chord
+        || params.host_ref().options.max_nsteps != inp.driver_options.max_nsteps)
+        R.violation("rzmap:driver-options-not-stored", cid,
+                    fmt("params options delta_chord=%g max_nsteps=%d, input delta_chord=%g max_nsteps=%d",
+                        double(params.host_ref().options.delta_chord),
+                        int(params.host_ref().options.max_nsteps),
+                        double(inp.driver_options.delta_chord), int(inp.driver_options.max_nsteps)));
+    R.tag(inp.driver_options == FieldDriverOptions{} ? "rzmap:driver-options-default"
+                                                     : "rzmap:driver-options-non-default");
     std::vector<Real3> pts;
     auto add_sym = [&](Real3 p) {
         // the point and its mirror images: the map depends on (|r|, z) only, the vector follows x, y
@@ -1245,6 +1290,24 @@ static void rzmap_value_cases(vf::Run& R, char const* name, RZMapFieldInput cons
             pts.push_back({0, -re, 0.11 * inp.min_z});
             pts.push_back({0.6 * re, 0.8 * re, 0.5});
         }
+    if (inp.min_r > 0)
+    {
+        // hollow map: the inner edge exactly and one ulp either side, the first inner grid line,
+        // a point deep in the hole; at a z inside the map and at z outside it
+        double const dr = (inp.max_r - inp.min_r) / (inp.num_grid_r - 1);
+        for (double rr : {inp.min_r, inp.min_r + dr, 0.4 * inp.min_r})
+            for (int d = -1; d <= 1; ++d)
+            {
+                double re = d == 0 ? rr : std::nextafter(rr, d < 0 ? 0 : 1e300);
+                for (double zz : {0.5 * (inp.min_z + inp.max_z), inp.min_z, inp.max_z,
+                                  -0.5 * (inp.min_z + inp.max_z), 0.0})
+                {
+                    pts.push_back({re, 0, zz});
+                    pts.push_back({0, -re, zz});
+                    pts.push_back({-0.6 * re, 0.8 * re, zz});
+                }
+            }
+    }
     for (Real3 const& x : pts)
     {
         Real3 got = field(x);
@@ -1254,6 +1317,7 @@ static void rzmap_value_cases(vf::Run& R, char const* name, RZMapFieldInput cons
         bool ok = O.check(x, got, want, &tol);
         LD r = sqrtl((LD)x[0] * x[0] + (LD)x[1] * x[1]);
         R.tag(r == 0                                              ? "rzmap:on-axis"
+              : (r < inp.min_r && x[2] >= inp.min_z && x[2] <= inp.max_z) ? "rzmap:in-hole"
               : (r > inp.max_r || x[2] < inp.min_z || x[2] > inp.max_z) ? "rzmap:outside-map"
                                                                         : "rzmap:inside-map");
         if (!ok)
@@ -1504,6 +1568,11 @@ int main(int argc, char** argv)
     // block index space
     size_t const NG = geos.size(), NSF = sfs.size(), NQ = 2, NR = ratios.size(), NO = options.size();
     uint64_t const nblocks = uint64_t(NG) * NSF * NQ * NR * NO;
+    // Extra sub-lattice for |q| != 1 and m != m_e: an alpha (q = +2, m = 3727.379 MeV) and a neutral
+    // massless particle in B != 0 (production sends neutral tracks through the same propagator):
+    // geometry x (stepper, field) without ZHelix x radius indices 3..5 x default options.
+    size_t const NXS = 2, NXR = 3, XR0 = 3;
+    uint64_t const nextra = uint64_t(NG) * NSF * NXS * NXR;
 
     std::vector<std::vector<StartCfg>> starts;
     for (auto& g : geos)
@@ -1518,7 +1587,11 @@ int main(int argc, char** argv)
     if (R.mine(nblocks + 6))
         rzmap_value_cases(R, "rzs", make_rz_input(1e4, 1), *fs.rz_smooth, geos);
     if (R.mine(nblocks + 7))
+    {
         rzmap_value_cases(R, "rzi", make_rz_input(1e4, 2), *fs.rz_inner, geos);
+        // hollow map (min_r > 0, z range entirely positive): value oracle only
+        rzmap_value_cases(R, "rzh", make_rz_input(1e4, 3), *make_rz(1e4, 3), geos);
+    }
     // FieldPropagator::operator()() (no step limit)
     for (size_t g = 0; g < geos.size(); ++g)
         if (R.mine(nblocks + 8 + g))
@@ -1527,34 +1600,59 @@ int main(int argc, char** argv)
     char const* const only_filter = getenv("C08_ONLY");
     if (only_filter)
         R.cap_hit(std::string("C08_ONLY=") + only_filter + " (block filter: not the declared lattice)");
-    for (uint64_t bi = 0; bi < nblocks; ++bi)
+    for (uint64_t bi = 0; bi < nblocks + nextra; ++bi)
     {
-        if (!R.mine(bi))
+        bool const extra = bi >= nblocks;
+        // (the indices nblocks .. nblocks + 8 + NG - 1 belong to the side cases above)
+        if (!R.mine(extra ? bi + 8 + NG : bi))
             continue;
         if (R.expired())
             break;
         // geometry varies fastest so that a deadline cut never drops a whole geometry
-        uint64_t x = bi;
+        uint64_t x = extra ? bi - nblocks : bi;
         size_t ig = x % NG;
         x /= NG;
-        size_t io = x % NO;
-        x /= NO;
-        size_t ir = x % NR;
-        x /= NR;
-        size_t iq = x % NQ;
-        x /= NQ;
-        size_t isf = x;
+        size_t io = 0, ir, iq, isf;
+        if (!extra)
+        {
+            io = x % NO;
+            x /= NO;
+            ir = x % NR;
+            x /= NR;
+            iq = x % NQ;
+            x /= NQ;
+            isf = x;
+        }
+        else
+        {
+            ir = XR0 + x % NXR;
+            x /= NXR;
+            iq = 2 + x % NXS;
+            x /= NXS;
+            isf = x;
+        }
         Geo& G = *geos[ig];
         SF const& sf = sfs[isf];
         OptSet const& O = options[io];
-        int const q = iq == 0 ? -1 : +1;
+        // species: e-, e+ | alpha, neutral (extra sub-lattice only)
+        int const q = iq == 0 ? -1 : iq == 1 ? +1 : iq == 2 ? +2 : 0;
+        double const mass = iq == 2 ? alpha_mass : iq == 3 ? 0.0 : electron_mass;
+        ParticleId const species = iq == 0   ? parts.eminus
+                                   : iq == 1 ? parts.eplus
+                                   : iq == 2 ? parts.alpha
+                                             : parts.neutral;
+        char const qtag = iq == 0 ? '-' : iq == 1 ? '+' : iq == 2 ? 'a' : '0';
         bool const zh = sf.st == St::zhelix;
+        if (extra && (zh || sf.fk == Fk::u0 || std::string(O.name) != "default"))
+            continue;  // ZHelix: q = 0 is outside its domain; B = 0 is charge independent
         // quick tier: checkerboard over (radius, options, charge); every radius, every option set
         // and both charges still occur with every geometry and every (stepper, field)
-        if (!thorough && (ir + io + iq) % 2)
+        if (!thorough && (ir + io + iq + (extra ? isf : 0)) % 2)
             continue;
+        if (extra)
+            R.tag(q ? "species:alpha(q=+2,m=3727)" : "species:neutral-in-field(q=0,m=0)");
         std::string bid = fmt("g=%s;sf=%s;q=%c;r=%zu;o=%s",
-                              G.name.c_str(), sf.name.c_str(), q < 0 ? '-' : '+', ir, O.name.c_str());
+                              G.name.c_str(), sf.name.c_str(), qtag, ir, O.name.c_str());
         if (R.replay() && R.replay_case().compare(0, bid.size(), bid) != 0)
             continue;
         if (only_filter && bid.find(only_filter) == std::string::npos)
@@ -1584,16 +1682,17 @@ int main(int argc, char** argv)
         // a surface (step 1 + 1 from y = 1 to the face y = 3): a measure-zero tie that a curved
         // path never produces and that belongs to C05 ("internal move rounded onto a surface").
         // The zero-field block therefore uses a generic length scale.
-        double const radius = ratios[ir] * scale * (sf.fk == Fk::u0 ? 0.9371 : 1.0);
+        // (a neutral particle moves on a straight line in any field: same generic scale)
+        double const radius = ratios[ir] * scale * (sf.fk == Fk::u0 || q == 0 ? 0.9371 : 1.0);
         // zero field: the momentum that would have this gyroradius in 1 T (radius is then only the
         // length scale of the requested steps)
-        LD const p_target = kappa * (Bn > 0 ? Bn : 1e4L) * radius;
+        // (gyroradius = p / (|q| kappa B); neutral: the momentum a unit charge would have)
+        LD const p_target = kappa * (Bn > 0 ? Bn : 1e4L) * radius * (q ? std::abs(q) : 1);
         // kinetic energy without cancellation: p^2 / (sqrt(p^2+m^2) + m)
         double const ke = double(p_target * p_target
-                                 / (sqrtl(p_target * p_target + LD(electron_mass) * electron_mass)
-                                    + electron_mass));
+                                 / (sqrtl(p_target * p_target + LD(mass) * mass) + mass));
         // momentum that corresponds to the *double* energy handed to the library
-        LD const p_mev = sqrtl(LD(ke) * (LD(ke) + 2 * LD(electron_mass)));
+        LD const p_mev = sqrtl(LD(ke) * (LD(ke) + 2 * LD(mass)));
 
         TolModel T{O.o.epsilon_rel_max, O.o.minimum_step, O.o.delta_intersection, O.o.delta_chord,
                    FieldDriverOptions::dchord_tol};
@@ -1787,7 +1886,7 @@ int main(int argc, char** argv)
                         }
                     }
                     auto particle = parts.view();
-                    particle = ParticleTrackView::Initializer_t{q < 0 ? parts.eminus : parts.eplus,
+                    particle = ParticleTrackView::Initializer_t{species,
                                                                 units::MevEnergy{ke}};
                     double const e_before = particle.energy().value();
                     double const p_before = particle.momentum().value();
